@@ -21,9 +21,6 @@ impl Scenario for DmaBatches {
     fn name(&self) -> &'static str {
         "dma_batches"
     }
-    fn isolated(&self) -> bool {
-        false
-    }
     fn quick_runs(&self, _f: &str) -> u64 {
         256 * 96
     }
